@@ -11,6 +11,9 @@ Not generated (spellings that are neither Zilog's nor Intel's but that code85.c 
 could be defended from the manual): the register name `M` in two-operand statements of the non-exclusive mode (`SUB A,M`), a port
 without parentheses after `IN A,` / before `,A` of OUT, a parenthesised number where a plain number is expected (`RST (8)`),
 `PUSH PSW` (Intel spelling: target 8080), the register names `C` / `M` in the condition position (they ARE the conditions).
+These are exactly the statements outside `Spec.I8080Z.canonical`, the hypothesis of the theorems `C14_8080z_sound` /
+`C14_8080z_range` (Props/C14_8080Z.lean: all mnemonics, all operand lists, all values); the driver refuses to judge a request
+outside it ("out-of-scope"), which this check reports as a failure - the generator must stay inside what the theorems cover.
 """
 from .c14 import Case, limits, num_intel
 
